@@ -101,6 +101,11 @@ def run(ctx):
         c = mkcase('OK%d' % i, lib.new_cfg(select=['(sort_by_keys .)=s'], json_opts=('consise', True)), gen.jdump(obj)); cases.append(c); meta[c['id']] = ('obj_keys', obj)
         objw = {nm: {'w': obj[nm], 'n': j} for j, nm in enumerate(names)}
         c = mkcase('OB%d' % i, lib.new_cfg(select=['(sort_by_values_by . .w)=s'], json_opts=('consise', True)), gen.jdump(objw)); cases.append(c); meta[c['id']] = ('obj_values_by', objw)
+    # every ordered pair of the objects and arrays of the universe through < <= > >= (members in another order: equal under =, not under the order)
+    comp = [v for v in UNIVERSE if isinstance(v, (dict, list))] + [{'x': 1, 'y': 2}, {'y': 2, 'x': 1}, {'y': 1, 'x': 2}, {'x': 2, 'y': 1}]
+    for t, (a, b) in enumerate(itertools.product(comp, repeat=2)):
+        c = mkcase('LC%d' % t, lib.new_cfg(select=['(< .a .b)=lt', '(<= .a .b)=le', '(> .a .b)=gt', '(>= .a .b)=ge']), gen.jdump({'a': a, 'b': b}))
+        cases.append(c); meta[c['id']] = ('cmp', a, b)
     if ctx['tier'] == 'thorough':
         for t, (a, b, cc) in enumerate(itertools.product(UNIVERSE, repeat=3)):
             if t % 7: continue
